@@ -167,7 +167,125 @@ def c11(pid, tier, replay):
     return res.finish()
 
 
+HEADERS = ["%grmtools{yacckind: Grmtools}", "%grmtools{yacckind: Original(YaccOriginalActionKind::NoAction), recoverer: RecoveryKind::CPCTPlus}",
+           "%grmtools {test_files: [\"*.txt\", 'a b'], size_limit: 1024, !octal, case_insensitive,}", "%grmtools{a: [1, 2, [3]], b: X::Y(Z)}",
+           " %grmtools\n{ x : \"é\" }", "%grmtools{}", "%grmtools{dfa_size_limit: 18446744073709551615}"]
+
+
+def mutants(text, rng, k):
+    """near-valid variants of a valid specification"""
+    out = []
+    specials = list("{}[]()'\"<>%|;:,*!\\/") + ["é", "\u4e16", "\U0001F600", "\n", "\r\n", "\r", "\t", "%%", "/*", "*/", "//", "%grmtools{", "18446744073709551616", "99999999999999999999999"]
+    n = len(text)
+    for _ in range(k):
+        op = rng.randrange(9)
+        t = text
+        if n == 0:
+            out.append(rng.choice(specials))
+            continue
+        i = rng.randrange(n)
+        if op == 0:
+            t = text[:i]                                        # truncate
+        elif op == 1:
+            t = text[:i] + text[i + 1:]                         # drop a character
+        elif op == 2:
+            t = text[:i] + text[i] + text[i:]                   # duplicate a character
+        elif op == 3:
+            t = text[:i] + rng.choice(specials) + text[i:]      # insert something special
+        elif op == 4:
+            cands = [j for j, c in enumerate(text) if c in "{}[]()'\"<>|;:"]
+            if cands:
+                j = rng.choice(cands)
+                t = text[:j] + text[j + 1:]                     # unbalance a bracket / quote
+        elif op == 5:
+            t = text.replace("\n", "\r\n") if rng.random() < 0.5 else text.replace("\n", "\r")
+        elif op == 6:
+            import re
+            t = re.sub(r"\d+", rng.choice(["18446744073709551616", "18446744073709551615", "99999999999999999999999", "0"]), text, count=1)
+        elif op == 7:
+            j = rng.randrange(n)
+            a, b2 = min(i, j), max(i, j)
+            t = text[:a] + text[b2:]                            # cut a stretch out
+        else:
+            t = text[:i] + rng.choice(specials) + text[i + 1:]  # replace a character
+        out.append(t)
+    return out
+
+
+def c12(pid, tier, replay):
+    from . import genlex
+    res = core.Result(pid, "model_checking", tier)
+    seed = core.seed()
+    rng = random.Random(seed * 19 + 12)
+    thorough = tier == "thorough"
+    items = []
+
+    def add(entry, s):
+        items.append(dict(id="t%d" % len(items), entry=entry, s=s))
+    if replay:
+        with open(replay) as f:
+            it = json.load(f)["instance"]
+        items.append(it)
+    else:
+        ndoc = 400 if thorough else 60
+        k = 40 if thorough else 14
+        for i in range(ndoc):
+            d = genyacc.gen_doc(rng)
+            y, _ = genyacc.render(d, rng)
+            kind = {"original": "yacc_original", "original_noaction": "yacc_original_noaction", "grmtools": "yacc_grmtools", "eco": "yacc_eco"}[d["kind"]]
+            if rng.random() < 0.3:
+                y = rng.choice(HEADERS) + "\n" + y
+            for m in [y] + mutants(y, rng, k):
+                add(kind, m)
+                if rng.random() < 0.25:
+                    add(rng.choice(["yacc_original", "yacc_grmtools", "yacc_eco"]), m)
+            ld = genlex.gen_lsrc(rng)
+            lt, _ = genlex.render_lsrc(ld, rng)
+            for m in [lt] + mutants(lt, rng, k):
+                add("lex", m)
+        for h in HEADERS:
+            for m in [h] + mutants(h, rng, 60 if thorough else 25):
+                add("header", m)
+                add(rng.choice(["lex", "yacc_grmtools"]), m + "\n%%\n")
+        # every truncation of a few specifications
+        for base in HEADERS[:3] + [genyacc.render(genyacc.gen_doc(rng), rng)[0] for _ in range(3)]:
+            for i in range(len(base) + 1):
+                add("header" if base.lstrip().startswith("%grmtools") else "yacc_grmtools", base[:i])
+    job = os.path.join(res.wd, "job.json")
+    trace = os.path.join(res.wd, "trace.ndjson")
+    with open(job, "w") as f:
+        json.dump(dict(items=items, workers=max(2, core.NCPU - 4), timeout_ms=4000), f)
+    core.run_vh(["total", job, trace], timeout=3000)
+    lines = open(trace).readlines()
+    classes = {}
+    for ln in lines:
+        e = json.loads(ln)
+        key = e["entry"].split("_")[0] + ":" + e["res"]["class"]
+        classes[key] = classes.get(key, 0) + 1
+    res.notes["inputs"] = len(items)
+    res.notes["outcome_classes"] = classes
+    byid = {i["id"]: i for i in items}
+    if not replay:
+        e = json.loads(lines[0])
+        e["res"] = {"class": "err", "errors": [{"kind": "x", "spans": [[3, 2]]}]}
+        v = validate(res, "TraceTotal", 9000, [json.dumps(e) + "\n"], {})
+        st = dict(rejected=len(v["devs"]) > 0, corruption="error span with start > end")
+        res.notes["binding_selftest"] = st
+        if not st["rejected"]:
+            raise core.ToolError("binding self-test failed")
+        if not any(k.endswith(":err") for k in classes) or not any(k.endswith(":ok") for k in classes):
+            raise core.ToolError("vacuity: no erroneous / no accepted inputs: %s" % classes)
+    run_parts(res, "TraceTotal", lines, {}, 1 if replay else (12 if thorough else 6), byid, seed)
+    for i in items[1:4]:
+        res.sample(i)
+    res.assumptions += ["a parser that does not answer within 4 s is reported as not returning",
+                        "near-valid inputs are mutations of generated valid specifications (operators listed in lib/p_src.py)"]
+    return res.finish()
+
+
 def main(pid, tier, replay=None):
+    if pid == "C12":
+        return c12(pid, tier, replay)
     if pid == "C10":
         return c10(pid, tier, replay)
     if pid == "C11":
